@@ -283,6 +283,74 @@ def _e2e_spec(cfg, i, path):
     return s1 == 'loaded' and s2 == 'modified' and expected == stored
 
 
+
+# ------------------------------------------------------------------ values put INTO a tracked container after it was loaded: later nested changes belong to the new owner
+SOURCES = ('plain', 'other object, same attribute', 'same object, other attribute', 'same object, same attribute', 'other object, whole value')
+INSERTS = {
+    '__setitem__': lambda tgt, v: tgt.__setitem__('in', v), 'update(dict)': lambda tgt, v: tgt.update({'in': v}), 'update(kw)': lambda tgt, v: tgt.update(**{'in': v}),
+    'update(pairs)': lambda tgt, v: tgt.update([('in', v)]), 'setdefault': lambda tgt, v: tgt.setdefault('in', v), '|=': lambda tgt, v: tgt.__ior__({'in': v}),
+    'list.append': lambda tgt, v: tgt['k'].append(v), 'list.extend': lambda tgt, v: tgt['k'].extend([v]), 'list.insert': lambda tgt, v: tgt['k'].insert(0, v),
+    'list.+=': lambda tgt, v: tgt['k'].__iadd__([v]), 'list.__setitem__': lambda tgt, v: tgt['k'].__setitem__(0, v), 'list.slice-assign': lambda tgt, v: tgt['k'].__setitem__(slice(0, 1), [v]),
+    'attribute assignment': None,
+}
+
+
+def _mv_configs(tier):
+    return [dict(source=src, insert=ins) for src in SOURCES for ins in INSERTS if not (src == 'other object, whole value') or ins in ('attribute assignment', '__setitem__', 'list.append')]
+
+
+def _find(doc):
+    """the value that was put in, wherever the insert operation left it"""
+    if isinstance(doc, dict) and 'marker' in doc: return doc
+    for v in (doc.values() if isinstance(doc, dict) else doc if isinstance(doc, list) else ()):
+        r = _find(v)
+        if r is not None: return r
+
+
+def _mv_case(cfg, values):
+    M = model()
+
+    def call():
+        try:
+            with orm.db_session:
+                a = M.D(j={'sub': {'marker': 1, 'deep': {'lst': [1]}}, 'k': [0]}, nj={'sub': {'marker': 1, 'deep': {'lst': [1]}}, 'k': [0]})
+                b = M.D(j={'k': [0]}, nj={'k': [0]})
+                orm.commit(); pa, pb = a.id, b.id
+            with orm.db_session:
+                a, b = M.D[pa], M.D[pb]
+                src = cfg['source']
+                if src == 'plain': v = {'marker': 1, 'deep': {'lst': [1]}}
+                elif src == 'other object, same attribute': v = a.j['sub']
+                elif src == 'same object, other attribute': b.nj['sub'] = {'marker': 1, 'deep': {'lst': [1]}}; orm.commit(); v = b.nj['sub']
+                elif src == 'same object, same attribute': b.j['first'] = {'marker': 1, 'deep': {'lst': [1]}}; orm.commit(); v = b.j['first']
+                else: v = a.j
+                if cfg['insert'] == 'attribute assignment': b.j = v if src == 'other object, whole value' else {'in': v, 'k': [0]}
+                else: INSERTS[cfg['insert']](b.j, v)
+                orm.commit()                                          # the move itself is saved
+                # LATER, in the same session and in the next one: nested changes made through the new owner
+                if src == 'other object, whole value' and cfg['insert'] == 'attribute assignment': tgt = b.j['sub']
+                elif cfg['insert'].startswith('list.'): tgt = _find([x for x in b.j['k'] if isinstance(x, dict)])
+                else: tgt = _find(b.j['in'])
+                tgt['deep']['lst'].append(2); tgt['later'] = True
+                changed_same_session = (b._status_, a._status_)
+                want_b = copy.deepcopy(b.j.get_untracked())
+            with orm.db_session:
+                a, b = M.D[pa], M.D[pb]
+                stored_b = b.j.get_untracked(); stored_a = a.j.get_untracked()
+                a.delete(); b.delete()
+            return changed_same_session, want_b, stored_b, stored_a
+        finally:
+            core.local.db2cache.clear()
+    return Case(call, {}, [])
+
+
+def _mv_spec(cfg, i, path):
+    if path.outcome != 'ret': return False
+    (sb, sa), want_b, stored_b, stored_a = path.value
+    a_untouched = {'sub': {'marker': 1, 'deep': {'lst': [1]}}, 'k': [0]}
+    return sb == 'modified' and sa in ('loaded', 'updated', 'inserted') and stored_b == want_b and stored_a == a_untouched
+
+
 CONTRACTS = [
     Contract('tracked_method_table', ['pony.orm.ormtypes:TrackedDict', 'pony.orm.ormtypes:TrackedList', 'pony.orm.ormtypes:TrackedArray', 'pony.orm.ormtypes:tracked_method',
                                       'pony.orm.ormtypes:TrackedValue.make', 'pony.orm.ormtypes:TrackedValue._changed_'], _mt_configs, _mt_case,
@@ -292,4 +360,8 @@ CONTRACTS = [
     Contract('in_place_change_is_persisted', ['pony.orm.ormtypes:TrackedDict', 'pony.orm.ormtypes:TrackedList', 'pony.orm.ormtypes:TrackedArray', 'pony.orm.core:Attribute.get'],
              _e2e_configs, _e2e_case, [('reading_does_not_modify_changing_does_and_commit_stores_it', _e2e_spec)], level='bounded',
              bound='nesting depth <= 4 of one document shape; every mutator incl. += *= |= and slice assignment'),
+    Contract('value_put_into_a_loaded_container', ['pony.orm.ormtypes:TrackedValue.make', 'pony.orm.ormtypes:tracked_method', 'pony.orm.ormtypes:TrackedDict', 'pony.orm.ormtypes:TrackedList',
+                                                   'pony.orm.dbapiprovider:JsonConverter.validate', 'pony.orm.core:Attribute.__set__'], _mv_configs, _mv_case,
+             [('later_nested_changes_are_stored_for_the_new_owner_only', _mv_spec)], level='bounded',
+             bound='13 ways of putting a value in x 5 origins of the value (plain, tracked value of another object / of another attribute / of the same attribute, whole value of another object)'),
 ]
